@@ -121,7 +121,7 @@ def pick_step(rng, env, fermi, names, counter, ops=None):
                         rhs = [q for k, q in enumerate(lhs) if k not in (i, j)]
                         rng.shuffle(rhs)
                         return {"out": [out], "op": "einsum", "in": [n], "params": {"lhs": lhs, "rhs": rhs}}
-        if op == "multiply_diagonal" and x.ndim >= 1 and not fermi:
+        if op == "multiply_diagonal" and x.ndim >= 1:
             ax = rng.randrange(x.ndim)
             v = gen.rand_vec(rng, x.indices[ax], dtype=x.dtype if x.blocks else "float64")
             vn = f"w{counter}"
